@@ -8,6 +8,7 @@ import (
 	"os"
 	"strings"
 	"time"
+	"tsim/genfault"
 
 	"github.com/ethereum/go-ethereum/common"
 
@@ -141,6 +142,7 @@ func (w *world) apply(op kernel.Op) {
 		if w.c.InBlock || w.c.Halted != "" {
 			return
 		}
+		genfault.Run(w.rec, w.c, int64(w.c.Height)+op.Arg(0))
 		for _, is := range w.c.ModuleRoundTrip() {
 			w.rec.Violate("C13", "roundtrip", "ag:"+is.Key, "ag world: %s", is.Detail)
 		}
